@@ -66,6 +66,47 @@ def payload_rules(ctx, RULE):
                         ctx.bad(RULE, '%s:%s' % (short, nm.rsplit('::', 1)[-1]), 'the result of %s is consumed by %s(): a decoding error becomes "nothing there" and the frame is delivered as if the peer had sent it that way'
                                 % (str(o[1]).rsplit('::', 1)[-1], nm.rsplit('::', 1)[-1]), ctx.where(RB, bb), key='ERR:%s:decode-error-swallowed' % fn)
     ctx.anchor(n_pl >= 2, 'payload None sites in the receive paths')
+    # what is decoded is the frame that was just read, no more: a buffer that outlives the frame keeps the tail of a longer earlier frame
+    RULE2 = RULE.rsplit('-', 1)[0].split('.')[0] + '.4-decode-exactly-the-frame' if False else RULE + ':frame-extent'
+    from ..families import operand_chain as _chain6
+    from ..core import receiver_root as _root6
+    for RB in bodies_of_fn(P, CONN + 'receive_message_from_read_half'):
+        if RB.b['kind'] != 'Closure' or not any(blk['t']['k'] == 'yield' for blk in RB.blocks):
+            continue
+        reads = [(bb, t) for bb, t in RB.calls() if any(n.endswith('::read_exact') for n in callee_names(t))]
+        body = [r for r in reads if any(RB.block_dominates(o[0], r[0]) and o[0] != r[0] for o in reads)]
+        decs = [(bb, t) for bb, t in RB.calls() if (callee_of(t)[0] or '').endswith('decoder::decode_with_trailing')]
+        if not body or not decs:
+            ctx.undecided(RULE, 'frame-extent', 'body read / decode call not found in the split receive function')
+            continue
+        rb, rt = body[-1]
+        buf_arg = rt['args'][-1]
+        ch = _chain6(RB, buf_arg)
+        root = _root6(RB, buf_arg)[0]
+        fresh = root is not None and root[0] == 'call' and (str(root[1]).endswith('vec::from_elem') or str(root[1]).endswith('::with_capacity') or str(root[1]).endswith('Vec::<T>::new')) \
+            and any(RB.block_dominates(lp[0], root[2]) for lp in reads if lp not in body)
+        sub = [c_ for c_ in ch if str(c_).endswith('::index_mut') or str(c_).endswith('::index') or 'split_at' in str(c_) or 'get_mut' in str(c_)]
+        where = ctx.where(RB, rb)
+        if fresh and not sub:
+            ctx.ok(RULE, 'frame-extent', 'the body is read into a vector created for this frame with the declared length; the decoder sees that vector', where)
+        elif sub:
+            # the read fills a part of a larger buffer: every decode input must be cut to the same end
+            db, dt = decs[0]
+            dch = ' '.join(str(x) for x in _chain6(RB, dt['args'][0])) + str(_cn6(RB, dt['args'][0]))
+            bounded = False
+            o = RB.origin(dt['args'][0])
+            if o and o[0] == 'call' and str(o[1]).endswith('::index'):
+                ro = RB.origin(RB.blocks[o[2]]['t']['args'][1])
+                if ro[0] == 'agg' and ('Range' in str(ro[1].get('adt')) and 'RangeFrom' not in str(ro[1].get('adt'))):
+                    bounded = True
+            if bounded:
+                ctx.ok(RULE, 'frame-extent', 'the read fills a prefix of a buffer and the decoder is given a slice with an upper bound', where)
+            else:
+                ctx.bad(RULE, 'frame-extent', 'the body is read into a part of a buffer (%s) but the decoder is handed the buffer from an offset to its END: bytes of an earlier, longer frame that lie behind the current one '
+                        'are decoded as its payload' % ', '.join(str(x).rsplit('::', 1)[-1] for x in sub[:2]), where, key='PROV:%sreceive_message_from_read_half:decodes-beyond-the-frame' % CONN)
+        else:
+            ctx.bad(RULE, 'frame-extent', 'the body is read into a buffer that is not created for this frame (%s): its length need not be the declared length, so the decoder may see bytes that are not part of the frame'
+                    % (root,), where, key='PROV:%sreceive_message_from_read_half:buffer-outlives-frame' % CONN)
 
 
 def run(ctx):
